@@ -58,11 +58,31 @@ func c05(c *h.Ctx) {
 		cyc := kahnCycle(ns, deps)
 		var tasks gen.OM
 		var stages []interface{}
+		// stage names: explicit (s<i>), or none (the stage then goes by the name of its task); explicitly named
+		// stages may run the task of an unnamed one
+		nm := make([]string, ns)
+		tk := make([]string, ns)
+		unnamed := []int{}
+		for i := 0; i < ns; i++ {
+			nm[i], tk[i] = fmt.Sprintf("s%d", i), "t"
+			if i%2 == 0 && r.Chance(45) {
+				nm[i], tk[i] = fmt.Sprintf("tk%d", i), fmt.Sprintf("tk%d", i)
+				unnamed = append(unnamed, i)
+			}
+		}
+		for i := 0; i < ns; i++ {
+			if tk[i] == "t" && len(unnamed) > 0 && r.Chance(40) {
+				tk[i] = tk[unnamed[r.Intn(len(unnamed))]]
+			}
+		}
 		for _, i := range order {
-			st := gen.OM{{K: "name", V: fmt.Sprintf("s%d", i)}, {K: "task", V: "t"}}
+			st := gen.OM{{K: "name", V: nm[i]}, {K: "task", V: tk[i]}}
+			if nm[i] == tk[i] {
+				st = gen.OM{{K: "task", V: tk[i]}}
+			}
 			var dl []interface{}
 			for _, d := range deps[i] {
-				dl = append(dl, fmt.Sprintf("s%d", d))
+				dl = append(dl, nm[d])
 			}
 			if len(dl) > 0 {
 				st.Set("depends_on", dl)
@@ -70,6 +90,9 @@ func c05(c *h.Ctx) {
 			stages = append(stages, st)
 		}
 		tasks.Set("t", gen.OM{{K: "command", V: []interface{}{"true"}}})
+		for _, u := range unnamed {
+			tasks.Set(tk[u], gen.OM{{K: "command", V: []interface{}{"true"}}})
+		}
 		cfg := gen.OM{{K: "tasks", V: tasks}, {K: "pipelines", V: gen.OM{{K: "p", V: stages}}}}
 		dir := caseDir(c, fmt.Sprintf("g%d", i))
 		defer os.RemoveAll(dir)
@@ -94,7 +117,7 @@ func c05(c *h.Ctx) {
 			want := map[string]bool{}
 			for x := range deps {
 				for _, d := range deps[x] {
-					want[fmt.Sprintf("s%d->s%d", d, x)] = true
+					want[nm[d]+"->"+nm[x]] = true
 				}
 			}
 			if !sameSet(got, want) {
